@@ -4,7 +4,7 @@ from ..framework import Case
 from ..common import hexs
 from .streamref import *
 
-LEAN_MODULES = ["Op2Proofs.Props.C12"]
+LEAN_MODULES = ["Op2Proofs.Props.C12", "Op2Proofs.Props.C12_Gen"]
 RULE = ("all operation histories of length <= 2 (thorough: <= 3 on the 5-byte source) over {Read, ReadPartial, Peek, Seek, "
         "SeekForward, SeekBackward, SeekBeginning, SeekEnd} with arguments {0,1,2,len-1,len,len+1,2^31,2^32,2^63,2^64-2,2^64-1,"
         "2^64-len} on sources of length 0,1,5, for memory readers, memory slices, file slices, slices of file slices and "
@@ -15,7 +15,7 @@ PROVED = ("MemoryReader model = abstract reader on every op with every 64-bit ar
           "= abstract reader over its window for ANY wrapped stream that is correct on in-bounds calls (so slices are safe even "
           "over a sloppy backend); instances for MemoryReader and FileReader; nesting to any depth by induction; clauses of the "
           "property read off the spec (exact bytes, partial = min, peek keeps position, position <= length, failure is a no-op, "
-          "fails iff out of bounds); size-prefixed reads consume exactly prefix+payload and reject negative/unsatisfiable sizes")
+          "fails iff out of bounds); size-prefixed reads consume exactly prefix+payload and reject negative/unsatisfiable sizes; L2: guards and cursor updates of MemoryReader (Seek/SeekForward/SeekBackward/ReadImplementation/ReadPartial/Slice) and SliceReader<FileReader> (ReadImplementation/ReadPartial/Seek/SeekForward/SeekBackward/Position) are re-translated from the C++ on every run (Gen/Streams.lean) and proved equal to the models' on all 64-bit values (C12_gen_*)")
 PARTIAL = ("ReadNullTerminatedString is tied by correspondence and the direct oracle only; std::ifstream's in-bounds behaviour is "
            "trusted base (FileR), exercised by the file-slice groups")
 TRUSTED = ["in-bounds behaviour of std::ifstream (read/seekg/tellg/gcount) as modelled by Stream.FileR"]
